@@ -83,7 +83,7 @@ static bool memcmp_free_eq(const TL& a, const TL& b, Long j) {
 
 extern "C" void proof_init() {
   TL l;
-  VASSERT(C19, TL_wf(&l), "new pool is well-formed");
+  VASSERT(C19/C11, TL_wf(&l), "new pool is well-formed");
   VASSERT(C19, l.count() == 0 && l.empty(), "new pool is empty");
   Long j = nd_u16(); VASSUME(j < CAP);
   VASSERT(C19, TL_vacant(&l, j), "new pool: every slot is free");
@@ -109,7 +109,7 @@ extern "C" void proof_emplace() {
   Long j = nd_u16(); VASSUME(j < CAP && j != r);
   VASSERT(C19, TL_vacant(&l, j) == TL_vacant(&old, j), "insert: other slots keep their status");
   if (!TL_vacant(&old, j)) VASSERT(C19, same_item(l, old, j), "insert: live items keep their contents");
-  VASSERT(C19, TL_wf(&l), "insert preserves the representation invariant");
+  VASSERT(C19/C11, TL_wf(&l), "insert preserves the representation invariant");
   VASSERT(C19, l.count() == TL_live(&l), "count is the number of live slots");
 }
 
@@ -123,7 +123,7 @@ extern "C" void proof_emplace_plain() {
   Long r = l.emplace(o, d, TransitionType::CHANGE);
   VASSERT(C19, r < CAP && TL_vacant(&old, r) && l.count() == old._count + 1, "insert without payload: free slot, count + 1");
   VASSERT(C19/C14, l._items[r].origin == o && l._items[r].destination == d && l._items[r].payload() == nullptr, "insert without payload stores the item and exposes no payload, whatever the slot held before");
-  VASSERT(C19, TL_wf(&l), "insert without payload preserves the representation invariant");
+  VASSERT(C19/C11, TL_wf(&l), "insert without payload preserves the representation invariant");
 }
 #endif
 
@@ -136,7 +136,7 @@ extern "C" void proof_emplace_full() {
   StateID o = nd_u16(), d = nd_u16(); int32_t p = nd_i32();   // one draw per statement: argument evaluation order is unspecified
   Long r = do_emplace(l, o, d, TransitionType::CHANGE, p);
   VASSERT(C19, r == INV, "insert into a full pool fails");
-  VASSERT(C19, l.count() == CAP && TL_wf(&l), "failed insert leaves a well-formed full pool");
+  VASSERT(C19/C11, l.count() == CAP && TL_wf(&l), "failed insert leaves a well-formed full pool");
   Long j = nd_u16(); VASSUME(j < CAP);
   VASSERT(C19, !TL_vacant(&l, j) && same_item(l, old, j), "failed insert leaves every item untouched");
 }
@@ -154,7 +154,7 @@ extern "C" void proof_remove() {
   Long j = nd_u16(); VASSUME(j < CAP && j != i);
   VASSERT(C19, TL_vacant(&l, j) == TL_vacant(&old, j), "remove: other slots keep their status");
   if (!TL_vacant(&old, j)) VASSERT(C19, same_item(l, old, j), "remove: live items keep their contents");
-  VASSERT(C19, TL_wf(&l), "remove preserves the representation invariant");
+  VASSERT(C19/C11, TL_wf(&l), "remove preserves the representation invariant");
   VASSERT(C19, l.count() == TL_live(&l), "count is the number of live slots");
 }
 
@@ -162,13 +162,13 @@ extern "C" void proof_clear() {
   TL l; nd_obj(l);                                 // any contents, well-formed or not
   l.clear();
   TL fresh;
-  VASSERT(C19, TL_wf(&l) && l.count() == 0 && l.empty(), "clear: empty and well-formed");
+  VASSERT(C19/C11, TL_wf(&l) && l.count() == 0 && l.empty(), "clear: empty and well-formed");
   VASSERT(C19, l._vacantHead == fresh._vacantHead && l._vacantTail == fresh._vacantTail && l._last == fresh._last && l._count == fresh._count,
           "after clear the pool behaves as new (same control state as a new pool)");
   Long j = nd_u16(); VASSUME(j < CAP);
   VASSERT(C19, TL_vacant(&l, j), "clear: every slot is free");
   Long r = do_emplace(l, 1, 2, TransitionType::CHANGE, 7);
-  VASSERT(C19, r == 0 && l.count() == 1 && TL_wf(&l), "clear: next insert succeeds as on a new pool");
+  VASSERT(C19/C11, r == 0 && l.count() == 1 && TL_wf(&l), "clear: next insert succeeds as on a new pool");
   // a cleared pool takes CAPACITY inserts, each into a valid slot (the safety checks of C11 ride on these calls)
   bool ok = true;
   for (unsigned k = 1; k < CAP; ++k) { Long q = do_emplace(l, 1, 2, TransitionType::CHANGE, 7); ok = ok && q < CAP; }
